@@ -39,13 +39,14 @@ class Site:
 
 class ExcFlow:
     def __init__(self, program, analysis, taint_all_params=True, user_callbacks=(), safe=None, extra_seeds=(), trusted_calls=(),
-                 callgraph=None, entry_taint=None, stop=(), report_generic_raise=False):
+                 callgraph=None, entry_taint=None, stop=(), report_generic_raise=False, opaque_raises=None):
         self.p = program
         self.an = analysis
         self.cg = callgraph
         self.entry_taint = entry_taint or {}  # qualname -> set of tainted params (overrides call-site inference)
         self.stop = set(stop)  # callee names (method or function names) not descended into
         self.report_generic_raise = report_generic_raise
+        self.opaque_raises = opaque_raises or {}  # call text (norm.text of func) -> exception type it may raise
         self._ptaint = {}
         self.safe = safe or {}  # (fn qualname, normalised expr text) -> reason
         self.taint_all_params = taint_all_params
@@ -485,6 +486,9 @@ class ExcFlow:
         f = c.func
         if self._is_safe(fn, c):
             return out
+        ftxt = norm.text(f)
+        if ftxt in self.opaque_raises:
+            out.append(Site(self.opaque_raises[ftxt], f"{ftxt}(...)", fn, c))
         targ = any(self.expr_tainted(a, tainted) for a in list(c.args) + [k.value for k in c.keywords])
         trecv = isinstance(f, ast.Attribute) and self.expr_tainted(f.value, tainted)
         if isinstance(f, ast.Attribute) and f.attr == "decode" and trecv:
